@@ -376,6 +376,51 @@ fn execute(c: &WCase, phase: Phase, fault: Fault, out: &mut Outcome) -> (u64, u6
             out.excluded += 1;
         }
     }
+    if out.failed() {
+        return counts;
+    }
+    // ---- late retry: whatever a look-up could not get while the fault was present is now loaded directly;
+    // then every leaf changes again. A look-up is a recorded dependency whatever it returned, so the assets
+    // that looked those entries up are reloaded with them.
+    for l in hot::LEAVES {
+        let w = &r.world;
+        let _ = std::panic::catch_unwind(std::panic::AssertUnwindSafe(|| w.top_load(crate::world::Kind::Leaf, l)));
+    }
+    for n in &c.nodes {
+        let w = &r.world;
+        let _ = std::panic::catch_unwind(std::panic::AssertUnwindSafe(|| w.top_load(n.kind, &n.id)));
+    }
+    r.refresh_watches();
+    for w in r.watches.values_mut() {
+        w.growths = 0;
+    }
+    r.snapshot_values();
+    let _ = r.world.take_events();
+    let _ = r.world.src.take_log();
+    let late = Step {
+        edits: hot::LEAVES.iter().enumerate().map(|(i, l)| hot::Edit::SetFile { id: l.to_string(), ext: "la".into(), content: hot::Content::Ok(5000 + i as u16) }).collect(),
+        notified: vec![true; hot::LEAVES.len()],
+        batched: false,
+        duplicate: false,
+        noise: vec![],
+        order: 3,
+    };
+    let deps_before = r.world.shadow_deps();
+    let notes = r.apply_edits(&late);
+    let sent = r.send(&late, notes);
+    if !r.barrier() {
+        out.fail("reload-lost", format!("{ctx}: after the late retry, a notified change was never applied although hot_reload kept returning"));
+        return counts;
+    }
+    let grew: BTreeMap<AKey, u32> = r.watches.iter().map(|(k, w)| (k.clone(), w.growths)).collect();
+    hot::check_convergence(&r, out, 100, &grew, &deps_before, &sent);
+    if let Some(v) = &mut out.violation {
+        v.what = format!("{ctx}, after loading every leaf and node directly and changing every leaf: {}", v.what);
+        if v.sig == "new-dependency-reloaded-in-same-batch" {
+            out.violation = None;
+            out.excluded += 1;
+        }
+    }
     counts
 }
 
@@ -393,7 +438,8 @@ impl Prop for C09 {
          then EVERY single fault is executed on a fresh copy of the scenario: each read index k < R x io kind in {NotFound, PermissionDenied, InvalidData, UnexpectedEof, Other}, each loader invocation k < L x {Err, panic}, in both phases \
          (initial loads on the caller thread under catch_unwind; reloads on the reloader thread), followed by removing the fault, retrying, and a repairing edit + barrier. \
          Checks: the faulted call returns Err / unwinds / or a value explained by a swallowed failure; every cached value is either untouched or equals the model evaluation of the source; values move only with their reload id; \
-         the calling thread's recording token is restored; retry gives the cached or the fresh value; hot_reload keeps returning (blocked-state detector) and the repair converges. \
+         the calling thread's recording token is restored; retry gives the cached or the fresh value; hot_reload keeps returning (blocked-state detector) and the repair converges; finally every leaf and node is loaded directly and every leaf changed: \
+         an asset whose latest load looked an entry up (even unsuccessfully, while the fault was there) is reloaded when that entry is. \
          non-trivial = a scenario in which some fault hit a nested load (depth >= 1) or the reload phase; distinct = different canonical JSON of the scenario; evaluations = scenarios, executions_enumerated_inside_cases = single-fault executions"
             .into()
     }
